@@ -11,7 +11,8 @@ Close Scope Z_scope.
 
 Definition read_op (o : op) : bool :=
   match o with
-  | OSearch _ _ _ _ | OAnd _ _ _ _ _ | OOr _ _ _ _ _ | OLen _ | OCollect _ _ _ | OOne _ | OAssignIndex _ => true
+  | OSearch _ _ _ _ | OAnd _ _ _ _ _ | OOr _ _ _ _ _ | OLen _ | OCollect _ _ _ | OOne _ | OAssignIndex _
+  | OExpects _ _ _ => true
   | _ => false
   end.
 
@@ -122,6 +123,9 @@ Proof.
     + (* OAssignIndex *)
       rewrite (with_schema_some ls (mk h w) _ _ h1 m1 D).
       destruct fld as [f|]; [destruct (nth_opt f (oi_fx (m_idx m1))) as [[l|]|]|]; cbn [fst]; apply K1; exact S1.
+    + (* OExpects *)
+      destruct (sr_err (find_srch h sid)); cbn [fst]; [split; [exact I|exact Ha]|].
+      destruct (_ || _); cbn [fst]; [split; [exact I|exact Ha]|apply K0].
   - (* no collection: every search call fails, nothing changes but the table of search values *)
     destruct (db_schema_absent ls h w I Ha) as [D _].
     assert (K0 : forall sr, Inv ls (mk (set_srch h sr) w) /\ abs (mk (set_srch h sr) w) = None).
@@ -137,6 +141,8 @@ Proof.
     + destruct (sr_err (find_srch h sid)); cbn [fst]; [split; [exact I|exact Ha]|].
       destruct (sr_fields (find_srch h sid)) as [|e0 l0]; cbn [fst]; [split; [exact I|exact Ha]|]. rewrite D. cbn [fst]. apply K0.
     + rewrite (with_schema_err ls (mk h w) _ _ h ENotFound D). cbn [fst]. split; [exact I|exact Ha].
+    + destruct (sr_err (find_srch h sid)); cbn [fst]; [split; [exact I|exact Ha]|].
+      destruct (_ || _); cbn [fst]; [split; [exact I|exact Ha]|apply K0].
 Qed.
 
 Lemma step_read_unfold hk ls s o : read_op o = true ->
